@@ -1,5 +1,6 @@
 #!/bin/bash
 # usage: sched/run.sh <C08|C20> [--tier ...]  (called by ./check)
 cd /verif
-( flock 9; ./sched/build.sh >/dev/null 2>.build/sbuild.err && RACE=1 ./sched/build.sh >/dev/null 2>>.build/sbuild.err ) 9>.build/slock || { cat .build/sbuild.err | tail -20; echo "INFRASTRUCTURE ERROR: scheduler harness build failed"; exit 2; }
-exec .build/verifs "$@"
+B=${VERIF_BUILD:-.build}
+( flock 9; ./sched/build.sh >/dev/null 2>$B/sbuild.err && RACE=1 ./sched/build.sh >/dev/null 2>>$B/sbuild.err ) 9>$B/slock || { cat $B/sbuild.err | tail -20; echo "INFRASTRUCTURE ERROR: scheduler harness build failed"; exit 2; }
+exec $B/verifs "$@"
